@@ -97,25 +97,15 @@ EXPORT errno_t _strchr_s_chk(const char *restrict dest, rsize_t dmax,
         return (ESLEMAX);
     }
 
-    /* compares wordwise */
-    /* XXX gcc-4.4 fails with logical ‘&&’ with non-zero constant
-       will always evaluate as true.
-       Expands to *result = (char*)(__extension__ (__builtin_constant_p (ch)
-        && !__builtin_constant_p ((const char *)dest) && (ch) == '\0'
-          ? (char *) __rawmemchr ((const char *)dest, ch)
-          : __builtin_strchr ((const char *)dest, ch)));
-    */
-#if defined(__GNUC__) && (((__GNUC__ * 100) + __GNUC_MINOR__) == 404)
-    *resultp = (char *)__builtin_strchr((const char *)dest, ch);
-#else
-    *resultp = (char *)strchr((const char *)dest, ch);
-#endif
+    /* the string ends at its terminator or after dmax characters, whichever
+       comes first; the terminator itself can be searched for */
+    {
+        const char *end = (const char *)memchr(dest, '\0', dmax);
+        const size_t len = end ? (size_t)(end - dest) + 1 : dmax;
+        *resultp = (char *)memchr(dest, ch, len);
+    }
 
     if (!*resultp)
         return (ESNOTFND);
-    else if ((long)(*resultp - dest) > (long)dmax) {
-        *resultp = NULL;
-        return (ESNOTFND);
-    }
     return (EOK);
 }
